@@ -215,7 +215,7 @@ UnpackB(T, cx, j) ==
     [] T[1] = "union" -> UnpackUnion(T[2], cx, j)
     [] T[1] = "newtype" -> Unpack(T[3], cx, j)
     [] T[1] \in {"final", "annotated"} -> Unpack(T[2], cx, j)
-    [] T[1] = "fwd" -> Unpack(T[3], cx, j)
+    [] T[1] \in {"fwd", "tvarc", "tvarb"} -> Unpack(T[3], cx, j)
     [] T[1] = "dc" -> FromDict(T, cx, j)
 
 \* ---- Conforms(T, v): v is an instance of its annotation, the very class named (C03)
@@ -253,7 +253,7 @@ Conforms(T, v) ==
     [] T[1] = "union" -> \E i \in DOMAIN T[2] : Conforms(T[2][i], v)
     [] T[1] = "newtype" -> Conforms(T[3], v)
     [] T[1] \in {"final", "annotated"} -> Conforms(T[2], v)
-    [] T[1] = "fwd" -> Conforms(T[3], v)
+    [] T[1] \in {"fwd", "tvarc", "tvarb"} -> Conforms(T[3], v)
     [] T[1] = "dc" -> v[1] = "obj" /\ v[2] = T[2] /\ Len(v[3]) = Len(T[3]) /\
                       \A i \in DOMAIN T[3] : (Nullable(T[3][i]) /\ IsNone(v[3][i])) \/ Conforms(T[3][i][2], v[3][i])
 =============================================================================
